@@ -574,6 +574,7 @@ func (ex *Exec) assert(st *State, c *Term, id string) {
 		model = ex.alt.GetModel(ex.tt.Vars)
 	}
 	ex.donePending()
+	model = ex.preferSmall(st, nc, model)
 	ex.recordViolation(st, "assert", id, "assertion "+id+" violated", model)
 	if nc.IsTrue() {
 		st.done = true
